@@ -1350,6 +1350,9 @@ def compare(ctx, cases, answers):
             if model != impl:
                 ctx.tie_broken('correspondence:script', short({'case': case, 'impl': impl, 'model': model}, 1500))
         elif stream == 'search':
+            if isinstance(ans, dict):          # the transcribed file branch of step 1 is not executable
+                ctx.tie_broken('correspondence:search', short({'model': ans}))
+                continue
             model = [[m[0], m[1], m[2], m[3]] for m in ans if m[0] is not None]
             ctx.count('search', (repr(case['tree']), case['string'], case['complete'], case['all_scopes'],
                                  case['parse_limit'], case['mode']),
@@ -1371,29 +1374,60 @@ def compare(ctx, cases, answers):
                                                                'tree': case['tree']}, 3000))
 
 
+def run_driver_chunks(reqs, jobs=6, min_split=600):
+    """common.run_driver_parallel only splits above 4000 requests; the walk / search requests carry
+    whole trees, so split (round-robin: the heavy requests are neighbours) already for fewer"""
+    if len(reqs) < min_split:
+        return common.run_driver('C19', reqs)
+    from concurrent.futures import ThreadPoolExecutor
+    chunks = [reqs[k::jobs] for k in range(jobs)]
+    with ThreadPoolExecutor(jobs) as ex:
+        parts = list(ex.map(lambda c: common.run_driver('C19', c), chunks))
+    out = [None] * len(reqs)
+    for k, part in enumerate(parts):
+        out[k::jobs] = part
+    return out
+
+
 def run(ctx):
+    import time
     _load_own_known(ctx)
     os.makedirs(SCRATCH, exist_ok=True)
     reqs = []
     cases = []
     roots = []
+    timing = [('build+audit', round(time.time() - ctx.t0, 1))]
+
+    def timed(name, f):
+        t = time.time()
+        r = f(ctx, reqs)
+        timing.append((name, round(time.time() - t, 1)))
+        return r
     try:
         for stream in (stream_corpus, stream_probes, stream_walk, stream_project_search):
-            c, r = stream(ctx, reqs)
+            c, r = timed(stream.__name__, stream)
             cases += c
             roots += r
-        cases += stream_sync(ctx, reqs)
-        cases += stream_gitignore(ctx, reqs)
-        cases += stream_split(ctx, reqs)
-        cases += stream_script(ctx, reqs)
+        cases += timed('sync', stream_sync)
+        cases += timed('gitignore', stream_gitignore)
+        cases += timed('split', stream_split)
+        cases += timed('script', stream_script)
         if ctx.model_ok:
-            answers = common.run_driver_parallel('C19', reqs)
+            t = time.time()
+            answers = run_driver_chunks(reqs)
+            timing.append(('lean driver (%d requests)' % len(reqs), round(time.time() - t, 1)))
             compare(ctx, cases, answers)
         else:
             ctx.notes.append('model did not build: correspondence skipped, oracles only')
     finally:
         for r in roots:
             cleanup(r)
+    try:
+        load = open('/proc/loadavg').read().split()[0]
+    except OSError:
+        load = '?'
+    ctx.notes.append('wall seconds per phase (1-min load average %s): %s'
+                     % (load, ', '.join('%s %.1f' % x for x in timing)))
     ctx.obligations['assumptions'] = [
         'os.walk / os.scandir: top-down, dirs and non-dirs in one listing order, descends into what is left in `dirs`; '
         'the order is a parameter of the model (the real order and three forced orders are exercised); no symlinks',
